@@ -255,7 +255,13 @@ impl Engine for C08 {
                                 } else if tb.as_deref() == Some(old_key.as_str()) && x.kind != "wiki" {
                                     let got = y.text.split_whitespace().collect::<Vec<_>>().join(" ");
                                     let kept = x.text.split_whitespace().collect::<Vec<_>>().join(" ");
-                                    if got != kept && Some(&got) != title_new.as_ref() {
+                                    // a title that itself contains a link may be taken before or after that link's
+                                    // text is refreshed (same don't-care as in C06)
+                                    let title_old = match extract(&lib[&old_key]).first() {
+                                        Some(B::Heading(t)) => Some(plain_text(t)),
+                                        _ => None,
+                                    };
+                                    if got != kept && Some(&got) != title_new.as_ref() && Some(&got) != title_old.as_ref() {
                                         push("link-text", if x.alone_in_para && !x.in_table { "block" } else { "inline" }, format!("note {}: text of the renamed link {:?} was {:?}, now {:?} (title of the note: {:?}); {}", k, x.dest, x.text, y.text, title_new, ctx), &feats);
                                     }
                                 }
